@@ -311,6 +311,72 @@ def task_columns(ctx, levels, lname):
         decide(ctx, 'sigma_to_pressure.affine_columns_exact_within_one_cell_of_the_levels_missing_beyond', dict(conf, level=k, ps_interval=[l, h]),
                box + reg, bad, spec=reg,
                replay=col_replay(to_pressure, k, lambda a_, b_, ps_, pk=pk: (a_ + b_ * pk / ps_) if s_lo < pk / ps_ < s_hi else np.nan))
+  # field shapes and trees: the conversions are documented for [..., level, x, y] fields: a leading (time / ensemble) axis is converted slice
+  # by slice, and every leaf of a tree of such fields is converted
+  a4 = TermArr.variables(sp, 'a4', (2, 1, nx, ny)); b4 = TermArr.variables(sp, 'b4', (2, 1, nx, ny))
+  a4v = [x_ for x_ in a4.a.reshape(-1)]; b4v = [x_ for x_ in b4.a.reshape(-1)]
+  box4 = [z3.And(v >= -1, v <= 1) for v in a4v + b4v] + [psv >= Q(PS_LO), psv <= Q(PS_HI)]
+
+  def lead_p2s(a4, b4, ps):
+    fld = a4 + b4 * (P[None, :, None, None] / 1000.0)
+    got = vi.interp_pressure_to_sigma({'u': fld, 'nested': {'t': fld[1]}}, pc, sig, ps)
+    ref = jnp.stack([vi.interp_pressure_to_sigma(fld[t], pc, sig, ps) for t in range(2)])
+    return (got['u'], got['nested']['t']), (ref, ref[1])
+
+  def lead_s2p(a4, b4, ps):
+    fld = a4 + b4 * sig.centers[None, :, None, None]
+    got = vi.interp_sigma_to_pressure({'u': fld, 'nested': {'t': fld[1]}}, pc, sig, ps)
+    ref = jnp.stack([vi.interp_sigma_to_pressure(fld[t], pc, sig, ps) for t in range(2)])
+    return (got['u'], got['nested']['t']), (ref, ref[1])
+  for cname, fnl in (('pressure_to_sigma', lead_p2s), ('sigma_to_pressure', lead_s2p)):
+    if cname == 'sigma_to_pressure' and K < 2:
+      continue
+    full = f'{cname}.leading_axes_and_tree_leaves_are_converted_slice_by_slice'
+    ex4 = (jnp.zeros((2, 1, nx, ny)), jnp.zeros((2, 1, nx, ny)), 900.0 * jnp.ones((1, nx, ny)))
+
+    def lead_replay(model, fnl=fnl):
+      av_ = np.array([_val(model, v) for v in a4v]).reshape(2, 1, nx, ny); bv_ = np.array([_val(model, v) for v in b4v]).reshape(2, 1, nx, ny)
+      ps_ = _val(model, psv)
+      try:
+        got, ref = fnl(jnp.asarray(av_), jnp.asarray(bv_), jnp.full((1, nx, ny), ps_))
+      except Exception as e_:  # noqa: BLE001
+        return (f'{fnl.__name__}: raises {type(e_).__name__} on a [time, level, x, y] field', dict(inputs=[av_.tolist(), bv_.tolist(), ps_], error=str(e_)[:200]))
+      for g_, r_ in zip(got, ref):
+        g_ = np.asarray(g_); r_ = np.asarray(r_)
+        if g_.shape != r_.shape or not np.allclose(g_, r_, rtol=0, atol=1e-7, equal_nan=True):
+          return (f'{fnl.__name__}: a [time, level, x, y] field (or a nested leaf) is not converted like its [level, x, y] slices: shapes {g_.shape} vs {r_.shape}',
+                  dict(inputs=[av_.tolist(), bv_.tolist(), ps_], got=np.asarray(g_).tolist(), slices=np.asarray(r_).tolist()))
+      return None
+    try:
+      cl4 = jax.make_jaxpr(fnl)(*ex4)
+      o4 = Interp(sp).run(cl4, a4, b4, ps)
+      half = len(o4) // 2
+      pairs = list(zip(o4[:half], o4[half:]))
+      shapes_ok = all(np.shape(g_.a if hasattr(g_, 'a') else g_) == np.shape(r_.a if hasattr(r_, 'a') else r_) for g_, r_ in pairs)
+    except Exception as e_:  # noqa: BLE001
+      shapes_ok = False; pairs = []
+    if not shapes_ok:
+      # the program itself cannot be built / has another output shape: settle on the real function at an arbitrary admissible input
+      class _M:
+        def eval(self, v, model_completion=True):
+          return z3.RealVal(900) if v is psv else z3.RealVal('1/2')
+      msg = lead_replay(_M())
+      ctx.clause(full, 'failed' if msg else 'error', config=conf, queries=0)
+      if msg:
+        ctx.violation(full, dict(config=conf, kind='shape'), msg[1], msg[0])
+      else:
+        ctx.error(full, 'output shapes differ in the traced program but the real call agrees')
+      continue
+    diffs = []
+    for g_, r_ in pairs:
+      for x_, y_ in zip(np.asarray(g_.a, dtype=object).reshape(-1), np.asarray(r_.a, dtype=object).reshape(-1)):
+        xr, yr = _r(x_), _r(y_)
+        if not xr.eq(yr):
+          diffs.append(z3.Or(xr - yr > eps, yr - xr > eps))
+    if not diffs:
+      ctx.clause(full, 'discharged', config=dict(conf, identical_terms=True), queries=0)
+    else:
+      decide(ctx, full, conf, box4, z3.Or(*diffs), replay=lead_replay)
   # hybrid -> sigma: a column that is affine in the SOURCE sigma (which itself depends on the surface pressure: sigma_j = (a_j + b_j ps) / ps at the
   # layer centres a_j, b_j = mid-points of the documented boundary coefficients) comes out affine in the target sigma, within one source cell of
   # the source range, and missing beyond
@@ -442,6 +508,8 @@ def make_tasks(tier, seed):
   LS = models.level_sets(seed)
   for ln in ('dy3', 'eq5'):
     tasks.append(dict(name=f'columns-{ln}', fn='task_columns', kw=dict(levels=LS[ln].tolist(), lname=ln)))
+  # as many sigma layers as pressure levels (6): a field left on its source levels has the right shape
+  tasks.append(dict(name='columns-un6', fn='task_columns', kw=dict(levels=[0.0, 0.1, 0.25, 0.45, 0.7, 0.9, 1.0], lname='un6')))
   g1 = dict(M=3, L=4, nlon=8, nlat=5); g2 = dict(M=3, L=4, nlon=12, nlat=6, offset=0.2)
   tasks.append(dict(name='horizontal-same', fn='task_horizontal', kw=dict(src=g1, tgt=g1, same=True)))
   tasks.append(dict(name='horizontal-different', fn='task_horizontal', kw=dict(src=g2, tgt=g1, same=False)))
